@@ -177,6 +177,9 @@ def ann_type(a):
         return ("list", ann_type(a.slice))
     if isinstance(a, ast.Subscript) and ast.unparse(a.value) in ("dict", "Dict", "T.Dict", "set", "T.Set"):
         raise Unsupported("mutable non-list field annotation " + ast.unparse(a), a)
+    if ast.unparse(a) in ("dict", "list", "set", "bytearray", "Dict", "List", "Set", "T.Dict", "T.List", "T.Set",
+                          "typing.Dict", "typing.List", "typing.Set", "collections.deque", "deque"):
+        raise Unsupported("field annotated as a bare mutable container: " + ast.unparse(a), a)
     return "imm"
 
 
